@@ -78,6 +78,9 @@ def _is_test_attribute_text(text: str) -> bool:
     without_strings = re.sub(r'"[^"]*"', '""', text)
     if re.search(r"\bnot\s*\(\s*test\s*\)", without_strings):
         return False
+    # #[cfg_attr(test, ...)] adds an attribute under test; the item itself is production code
+    if re.match(r"\s*#!?\s*\[\s*cfg_attr\b", without_strings):
+        return False
     return "test" in without_strings
 
 
